@@ -1,5 +1,6 @@
 import GoatProofs.Lemmas.C13Decode
 import GoatProofs.Lemmas.C13OrderB
+import Goat.Gen.Ed448Facts
 /-
 C13 — Ed448 signing and verification are exactly RFC 8032 Ed448.
 -/
@@ -775,6 +776,30 @@ theorem verify_sign_closed (o : Oracle) (seed msg pub sg : Bytes) (hs : seed.len
 /-- the executable spec multiplication is multiplication in the Ed448 group -/
 theorem smul_eq_closed (g : theGroup.G) (k : ℕ) :
     Spec.Edwards448.smul k (EdwardsGroup.val g) = EdwardsGroup.val (k • g) := smul_eq theGroup g k
+
+/-! ## the model's "pure function of argument values, fresh results" reading of ed448.go
+
+The model takes octet strings by VALUE and returns fresh values.  For the Go code this means: no
+function writes through (or appends to) a parameter slice, and no returned slice shares memory with
+an argument.  Regenerated syntactic facts (`translator/ed448facts.go`, go/ast) pin exactly that; the
+harness stream `shape` exercises it on sub-slices with spare capacity and aliased arguments. -/
+
+/-- (1) no function of ed448/*.go writes through a parameter, except the two internal helpers into
+    their output buffer (first parameter) by `copy`; (2) every returned expression is a buffer freshly
+    made (`x := make(T, n)`, bound once) in the function, a constant, or a call — never a parameter, a
+    re-slicing of one, or `append(…)`; (3) the output buffer handed to `newKeyFromSeed` / `sign` is
+    always freshly made in the caller. -/
+theorem ed448_args_readonly :
+    (Gen.Ed448Facts.paramWrites.all fun f =>
+        f.2.isEmpty ||
+        (f.1 == "ed448.newKeyFromSeed" && f.2.all (· == "copy into privateKey")) ||
+        (f.1 == "ed448.sign" && f.2.all (· == "copy into signature"))) = true ∧
+    (Gen.Ed448Facts.returns.all fun f => f.2.all fun c => c == "make" || c == "const" || c == "call") = true ∧
+    (Gen.Ed448Facts.helperDests.all fun f => f.2.all (· == "make")) = true ∧
+    (Gen.Ed448Facts.helperDests.lookup "ed448.NewKeyFromSeed" = some ["make"]) ∧
+    (Gen.Ed448Facts.helperDests.lookup "ed448.GenerateKey" = some ["make"]) ∧
+    (Gen.Ed448Facts.helperDests.lookup "ed448.Sign" = some ["make"]) := by
+  decide
 
 /-! ## non-vacuity -/
 
